@@ -20394,6 +20394,66 @@ mod tests {
 
 /// Verification hooks (feature `_verif_hooks` only); see `ln::verif_hooks`.
 #[cfg(feature = "_verif_hooks")]
+pub mod verif_hooks_revoke {
+	use super::*;
+
+	/// The commitment-number / revocation-flag projection of a [`FundedChannel`].
+	#[derive(Clone, Debug, PartialEq, Eq)]
+	pub struct RevocationView {
+		/// `holder_commitment_point.next_transaction_number()`
+		pub holder_next: u64,
+		/// `context.counterparty_next_commitment_transaction_number`
+		pub counterparty_next: u64,
+		/// `channel_state` is `ChannelReady(_)`
+		pub channel_ready: bool,
+		/// `AWAITING_REMOTE_REVOKE` is set
+		pub awaiting_remote_revoke: bool,
+		/// `PEER_DISCONNECTED` is set
+		pub peer_disconnected: bool,
+		/// `MONITOR_UPDATE_IN_PROGRESS` is set
+		pub monitor_update_in_progress: bool,
+		/// `context.monitor_pending_revoke_and_ack`
+		pub monitor_pending_revoke_and_ack: bool,
+		/// `context.monitor_pending_commitment_signed`
+		pub monitor_pending_commitment_signed: bool,
+		/// `context.resend_order == RAACommitmentOrder::RevokeAndACKFirst`
+		pub resend_raa_first: bool,
+		/// `context.commitment_secrets.get_min_seen_secret()`
+		pub min_seen_secret: u64,
+		/// `context.counterparty_current_commitment_point`
+		pub counterparty_current_point: Option<PublicKey>,
+		/// `context.counterparty_next_commitment_point`
+		pub counterparty_next_point: Option<PublicKey>,
+	}
+
+	impl<SP: SignerProvider> FundedChannel<SP> {
+		/// Read-only view of the numbers and flags the revocation discipline depends on.
+		pub fn verif_revocation_view(&self) -> RevocationView {
+			RevocationView {
+				holder_next: self.holder_commitment_point.next_transaction_number(),
+				counterparty_next: self.context.counterparty_next_commitment_transaction_number,
+				channel_ready: matches!(self.context.channel_state, ChannelState::ChannelReady(_)),
+				awaiting_remote_revoke: matches!(self.context.channel_state, ChannelState::ChannelReady(_))
+					&& self.context.channel_state.is_awaiting_remote_revoke(),
+				peer_disconnected: self.context.channel_state.is_peer_disconnected(),
+				monitor_update_in_progress: self
+					.context
+					.channel_state
+					.is_monitor_update_in_progress(),
+				monitor_pending_revoke_and_ack: self.context.monitor_pending_revoke_and_ack,
+				monitor_pending_commitment_signed: self.context.monitor_pending_commitment_signed,
+				resend_raa_first: self.context.resend_order
+					== RAACommitmentOrder::RevokeAndACKFirst,
+				min_seen_secret: self.context.commitment_secrets.get_min_seen_secret(),
+				counterparty_current_point: self.context.counterparty_current_commitment_point,
+				counterparty_next_point: self.context.counterparty_next_commitment_point,
+			}
+		}
+	}
+}
+
+/// Verification hooks (feature `_verif_hooks` only); see `ln::verif_hooks`.
+#[cfg(feature = "_verif_hooks")]
 pub mod verif_hooks_monupd {
 	use super::*;
 
